@@ -1,41 +1,58 @@
 (** C15 — The configurable SML encoder with defaults is byte-identical to Item.ToSML.
     Only property theorems (closed by [exact]), their assumptions and non-vacuity examples.
-    Models: Sml/ToSml.v (secs2 per-type ToSML + formatSML), Sml/Encoder.v (sml.Encoder);
-    proofs: Sml/ToSmlProofs.v, Base/DecimalProofs.v. Float and %q text come from Go's strconv
-    (oracles [ffmt], [quote]: both renderers call the same functions on the same values, so the
-    identity needs no law about them). *)
+    Models: Sml/ToSml.v (secs2 per-type ToSML + formatSML), Sml/Encoder.v (sml.Encoder),
+    Sml/StrictParser.v (the parser, for the readback half); proofs: Sml/ToSmlProofs.v,
+    Base/DecimalProofs.v, Sml/StrictRoundtrip.v, Sml/EncReadback.v.
+    Oracles (Go's strconv): ffmt = FormatFloat 'G', quote = Quote / %q, fparse = ParseFloat,
+    narrow32 = float32 conversion; laws appear as explicit premises where they are needed. *)
 From Coq Require Import ZArith Bool List Lia.
-From GoSecs Require Import Base.Decimal Base.DecimalProofs Sml.Syntax Sml.Encoder Sml.ToSml Sml.ToSmlProofs.
+From GoSecs Require Import Base.Decimal Base.DecimalProofs Sml.Syntax Sml.Encoder Sml.ToSml Sml.ToSmlProofs
+  Sml.StrictParser Sml.StrictParserLemmas Sml.StrictRoundtripDefs Sml.StrictRoundtrip Sml.StrictRoundtripFinal
+  Sml.EncReadback Sml.StrictToyOracle.
 Import ListNotations.
 Open Scope Z_scope.
 
 (** For every item tree (every error-free item is one: all ten leaf kinds with empty / one / many
-    values, the empty item, lists of any nesting incl. EmptyItem children), whatever strconv
-    prints for floats and %q: Item.ToSML() = sml.Encode(item), byte for byte. *)
+    values in the storage the constructors and the decoder establish, the empty item, lists of
+    any nesting incl. EmptyItem children), whatever strconv prints for floats and %q:
+    Item.ToSML() = sml.Encode(item), byte for byte. No law about the oracles is needed. *)
 Theorem C15_identical : forall (ffmt : fwidth -> Z -> bytes) (quote : bytes -> bytes) (x : item),
   to_sml ffmt quote x = encode_default ffmt quote x.
 Proof. exact to_sml_eq_encode_default. Qed.
 Print Assumptions C15_identical.
 
-(** Readback, token level (the parser reads values with ParseInt/ParseUint base 0): every signed
-    and unsigned element of every width prints to a token that parses back to the same value, and
-    every binary byte (0xHH) does. *)
-Theorem C15_readback_int_token_partial : forall w v,
-  - 2 ^ (wbits w - 1) <= v < 2 ^ (wbits w - 1) ->
-  parse_int true (wbits w) (format_int v) = NOk v.
-Proof. intros w v H. apply parse_int_format; [destruct w; cbv; discriminate|exact H]. Qed.
-Print Assumptions C15_readback_int_token_partial.
+(** Readback: the text EITHER renderer writes for a binary, boolean, signed, unsigned or float
+    item whose elements are in range (no deferred error) is read back by the parser as an item
+    with the same values (floats: same wire value, NaN payload aside) — wherever the item stands:
+    after any whitespace, followed by any whitespace and a character that starts no comment. *)
+Theorem C15_readback :
+  forall (ffmt : fwidth -> Z -> bytes) (quote : bytes -> bytes) (fparse : fwidth -> bytes -> option Z) (narrow32 : Z -> Z),
+    (forall w v, fdom w v = true -> good_tok (ffmt w v) = true) ->
+    (forall w v, fdom w v = true -> exists v', fparse w (ffmt w v) = Some v' /\ feq narrow32 w v v') ->
+    forall x, value_leaf_item x = true -> dom_item false no_plain x = true ->
+    forall text, text = to_sml ffmt quote x \/ text = encode_default ffmt quote x ->
+    forall input pre ws ws' c rest',
+      Forall is_ws ws -> Forall is_ws ws' -> follow c ->
+      input = pre ++ ws ++ text ++ ws' ++ c :: rest' ->
+      exists x' q,
+        parse_item fparse input 1 (mkst pre (ws ++ text ++ ws' ++ c :: rest')) = POk x' (mkst q (c :: rest'))
+        /\ input = q ++ c :: rest' /\ item_eqv narrow32 x x'.
+Proof. exact readback_both. Qed.
+Print Assumptions C15_readback.
 
-Theorem C15_readback_uint_token_partial : forall w v,
-  0 <= v <= 2 ^ (wbits w) - 1 ->
-  parse_uint true (wbits w) (format_uint v) = NOk v.
-Proof. intros w v H. apply parse_uint_format; [destruct w; cbv; discriminate|exact H]. Qed.
-Print Assumptions C15_readback_uint_token_partial.
-
-Theorem C15_readback_binary_token_partial : forall b, 0 <= b < 256 ->
-  parse_int true 64 (tok_hex b) = NOk b.
+(** Token level, all integers of every width (no oracle involved): what FormatInt / FormatUint
+    print, ParseInt / ParseUint with base 0 read back; every binary byte token too. *)
+Theorem C15_readback_int_token : forall base0 bits v, 1 <= bits ->
+  - 2 ^ (bits - 1) <= v < 2 ^ (bits - 1) -> parse_int base0 bits (format_int v) = NOk v.
+Proof. exact parse_int_format. Qed.
+Theorem C15_readback_uint_token : forall base0 bits v, 0 <= bits ->
+  0 <= v <= 2 ^ bits - 1 -> parse_uint base0 bits (format_uint v) = NOk v.
+Proof. exact parse_uint_format. Qed.
+Theorem C15_readback_binary_token : forall b, 0 <= b < 256 -> parse_int true 64 (tok_hex b) = NOk b.
 Proof. exact parse_int_tok_hex. Qed.
-Print Assumptions C15_readback_binary_token_partial.
+Print Assumptions C15_readback_int_token.
+Print Assumptions C15_readback_uint_token.
+Print Assumptions C15_readback_binary_token.
 
 (** Non-vacuity: a tree with every storage case, nesting and an EmptyItem child; both sides
     compute to the same non-empty text. *)
@@ -49,7 +66,17 @@ Example C15_identical_nonvacuous :
   to_sml demo_ffmt demo_quote demo_tree = encode_default demo_ffmt demo_quote demo_tree /\
   (length (to_sml demo_ffmt demo_quote demo_tree) > 100)%nat.
 Proof. split; [reflexivity|vm_compute; lia]. Qed.
+
+(** the float laws are satisfiable (toy oracle), and an in-range item in a list context reads back *)
 Example C15_readback_nonvacuous :
-  parse_int true 64 (format_int (-9223372036854775808)) = NOk (-9223372036854775808) /\
-  parse_uint true 8 (format_uint 255) = NOk 255.
-Proof. split; reflexivity. Qed.
+  (forall w v, fdom w v = true -> good_tok (toy_ffmt w v) = true) /\
+  (forall w v, fdom w v = true -> exists v', toy_fparse w (toy_ffmt w v) = Some v' /\ feq toy_narrow w v v') /\
+  let x := IInt W8 [-9223372036854775808; 9223372036854775807] in
+  value_leaf_item x = true /\ dom_item false no_plain x = true /\
+  let input := [10; 32] ++ to_sml toy_ffmt toy_quote x ++ [10] ++ [62] in
+  exists st, parse_item toy_fparse input 1 (mkst [] input) = POk x st /\ data st = [62].
+Proof.
+  split; [exact toy_ffmt_good|]. split; [exact toy_roundtrip|].
+  cbv zeta. split; [reflexivity|]. split; [vm_compute; reflexivity|].
+  eexists. split; vm_compute; reflexivity.
+Qed.
